@@ -1,6 +1,7 @@
 import TypVerif.Drv.Proto
 import TypVerif.Conc.Sys
 import TypVerif.Model.SyncMapConc
+import TypVerif.Model.KeyedMutexConc
 /-
 Judge "C09conc": STEP-level traces of sync2.KeyedMutex (`km 0`) / sync2.KeyedRWMutex (`km 1`) recorded under the controlled
 scheduler are replayed in the composition of
@@ -16,6 +17,11 @@ scheduler are replayed in the composition of
   iter <t> <k>          key choice of the map's `range read.m` loop
   res <t> done|true|false
 
+The composition is `Model/KeyedMutexConc.lean` — the transition system of the `C09.conc_*` theorems (`Props/C09conc.lean`): this
+judge is written through the model's own step functions (`invStep`, `contMap` after `SyncMapConc.exec` / `picks`, `hookStep`), so
+every accepted line IS a step of `KeyedMutexConc.stepT` (the `inv` line with the guard `invOk`: goroutines only unlock what they
+hold), with the hook label of the step equal to the label the real code announced.
+
 A trace is accepted iff the real execution is, label for label and result for result, an execution of this composition — so a
 keyed-mutex method that does anything else with the map than one `LoadOrStore` (e.g. `Load` then `Store`), or skips / adds an atomic
 action, is a label mismatch.  `model` is `ok` or `rejected:<why>` (once per scenario); there is no specification output here
@@ -23,34 +29,13 @@ action, is a label mismatch.  `model` is `ok` or `rejected:<why>` (once per scen
 -/
 namespace TypVerif.Drv.C09conc
 open TypVerif TypVerif.Proto TypVerif.Model TypVerif.Model.SyncMapConc
+open TypVerif.Model.KeyedMutexConc (Kind Phase invOk invStep contMap hookStep)
 
-abbrev MS := SyncMapConc.State Int Int
-abbrev MPc := SyncMapConc.Pc Int Int
-
-/-- what a goroutine does with the mutex once its map call has returned -/
-inductive Kind where
-  | lock | trylock | unlock | rlock | tryrlock | runlock | clear
-  deriving DecidableEq, Repr
-
-/-- progress of a keyed-mutex call -/
-inductive Phase where
-  | inMap (kind : Kind) (k : Int)              -- inside the map call
-  | atHook (kind : Kind) (m : Int)             -- parked at the keyed mutex's own hook, about to act on mutex `m`
-  | ret (r : String)                           -- about to return `r`
-  deriving DecidableEq, Repr
-
-structure Mu where
-  id : Int
-  writer : Option Nat := none
-  readers : List Nat := []
-  deriving DecidableEq, Repr
+abbrev KS := KeyedMutexConc.State Int
 
 structure St where
   rw : Bool := false
-  map : MS := SyncMapConc.init 0
-  phases : List (Nat × Phase) := []
-  mus : List Mu := []
-  next : Int := 1                              -- identity of the next mutex offered to LoadOrStore
+  s : KS := {}
   dead : Bool := false
   started : Bool := false
   deriving DecidableEq
@@ -60,15 +45,10 @@ def kindOf : String → Option Kind
   | "rlock" => some .rlock | "tryrlock" => some .tryrlock | "runlock" => some .runlock
   | "clear" => some .clear | _ => none
 
-def pad (s : MS) (n : Nat) : MS := { s with pcs := s.pcs ++ List.replicate (n - s.pcs.length) .idle }
-
-def phaseOf (st : St) (t : Nat) : Option Phase := (st.phases.find? (·.1 == t)).map (·.2)
-def setPhase (st : St) (t : Nat) (p : Option Phase) : St :=
-  let rest := st.phases.filter (·.1 != t)
-  { st with phases := match p with | some p => (t, p) :: rest | none => rest }
-
-def mu (st : St) (m : Int) : Mu := (st.mus.find? (·.id == m)).getD { id := m }
-def setMu (st : St) (x : Mu) : St := { st with mus := x :: st.mus.filter (·.id != x.id) }
+/-- goroutines are created on demand: extend the goroutine lists (map component and phases) with idle goroutines -/
+def pad (s : KS) (n : Nat) : KS :=
+  { s with map := { s.map with pcs := s.map.pcs ++ List.replicate (n - s.map.pcs.length) .idle },
+           phases := s.phases ++ List.replicate (n - s.phases.length) .idle }
 
 /-- the label of the keyed mutex's own hook -/
 def hookLabel (rw : Bool) : Kind → String
@@ -78,82 +58,54 @@ def hookLabel (rw : Bool) : Kind → String
   | .tryrlock => "KeyedRWMutex.TryRLockKey"
   | _ => "-"
 
-/-- the map call has returned `m` (or, for clear, has returned): what the method does next, in the same step -/
-def afterMap (st : St) (t : Nat) (kind : Kind) (m : Int) : St :=
-  match kind with
-  | .clear => setPhase st t (some (.ret "done"))
-  | .unlock =>
-    let x := mu st m
-    setPhase (setMu st { x with writer := none }) t (some (.ret "done"))
-  | .runlock =>
-    let x := mu st m
-    setPhase (setMu st { x with readers := x.readers.erase t }) t (some (.ret "done"))
-  | k => setPhase st t (some (.atHook k m))
+def resStr : KeyedMutexConc.Res → String
+  | .done => "done" | .tt => "true" | .ff => "false"
 
-/-- one step of the map call of goroutine `t`; when the map call is about to return, the keyed-mutex method continues -/
-def mapStep (st : St) (t : Nat) (kind : Kind) (label : String) : Option St :=
-  let pc := st.map.pc t
+/-- one atomic action of the map call of goroutine `t` (`SyncMapConc.exec`); when the map call is about to return, the
+keyed-mutex method continues (`KeyedMutexConc.contMap`) -/
+def mapStep (s : KS) (t : Nat) (kind : Kind) (k : Int) (label : String) : Option KS :=
+  let pc := s.map.pc t
   if pc.label != label then none else
-  match exec st.map.sh t pc with
+  match exec s.map.sh t pc with
   | none => none
-  | some (sh', pc') =>
-    let st := { st with map := setPc st.map t sh' pc' }
-    match pc' with
-    | .ret (.pair a _) =>                      -- LoadOrStore returned the key's mutex
-      some (afterMap { st with map := setPc st.map t st.map.sh .idle } t kind a)
-    | .ret .done =>                            -- Delete returned
-      some (afterMap { st with map := setPc st.map t st.map.sh .idle } t kind 0)
-    | .ret _ => none
-    | _ => some st
+  | some (sh', pc') => some (contMap s t kind k (setPc s.map t sh' pc'))
 
-def doStep (st : St) (t : Nat) (label : String) : Option St :=
-  match phaseOf st t with
-  | some (.inMap kind _) =>
+def doStep (st : St) (t : Nat) (label : String) : Option KS :=
+  match st.s.phase t with
+  | .inMap kind k =>
     -- the scheduler's `op:<kind>` step is the start of the method: the map call's own start step
     let label := if label.startsWith "op:" then
         (if label == "op:clear" then "op:delete" else "op:loadorstore") else label
-    mapStep st t kind label
-  | some (.atHook kind m) =>
-    if hookLabel st.rw kind != label then none else
-    let x := mu st m
-    match kind with
-    | .lock =>
-      if x.writer.isNone && x.readers.isEmpty then some (setPhase (setMu st { x with writer := some t }) t (some (.ret "done"))) else none
-    | .rlock =>
-      if x.writer.isNone then some (setPhase (setMu st { x with readers := t :: x.readers }) t (some (.ret "done"))) else none
-    | .trylock =>
-      if x.writer.isNone && x.readers.isEmpty then some (setPhase (setMu st { x with writer := some t }) t (some (.ret "true")))
-      else some (setPhase st t (some (.ret "false")))
-    | .tryrlock =>
-      if x.writer.isNone then some (setPhase (setMu st { x with readers := t :: x.readers }) t (some (.ret "true")))
-      else some (setPhase st t (some (.ret "false")))
-    | _ => none
+    mapStep st.s t kind k label
+  | .atHook kind k m =>
+    if hookLabel st.rw kind != label then none else hookStep st.s t kind k m
   | _ => none
 
-def doInv (st : St) (t : Nat) (kind : Kind) (k : Int) : Option St :=
-  let m := pad st.map (t + 1)
-  match phaseOf st t, m.pc t with
-  | none, .idle =>
-    let op : SyncMapConc.Op Int Int := if kind == .clear then .delete k else .loadOrStore k st.next
-    some (setPhase { st with map := setPc m t m.sh (.start op), next := st.next + 1 } t (some (.inMap kind k)))
-  | _, _ => none
+def doInv (st : St) (t : Nat) (kind : Kind) (k : Int) : Option KS :=
+  let s := pad st.s (t + 1)
+  match s.phase t with
+  | .idle => if invOk s t ⟨kind, k⟩ then some (invStep s t ⟨kind, k⟩) else none
+  | _ => none
 
-def doIter (st : St) (t : Nat) (k : Int) : Option St :=
-  match (picks (st.map.pc t)).find? (·.1 == k) with
-  | some (_, pc') => some { st with map := setPc st.map t st.map.sh pc' }
-  | none => none
+def doIter (st : St) (t : Nat) (k : Int) : Option KS :=
+  match st.s.phase t with
+  | .inMap kind k' =>
+    match (picks (st.s.map.pc t)).find? (·.1 == k) with
+    | some (_, pc') => some (contMap st.s t kind k' (setPc st.s.map t st.s.map.sh pc'))
+    | none => none
+  | _ => none
 
-def doRes (st : St) (t : Nat) (r : String) : Option St :=
-  match phaseOf st t with
-  | some (.ret r') => if r == r' then some (setPhase st t none) else none
+def doRes (st : St) (t : Nat) (r : String) : Option KS :=
+  match st.s.phase t with
+  | .ret r' => if r == resStr r' then some (st.s.setPhase t .idle) else none
   | _ => none
 
 def at0 (st : St) (t : Nat) : String :=
-  match phaseOf st t with
-  | some (.inMap _ _) => s!"in-map-at:{(st.map.pc t).label}"
-  | some (.atHook k _) => s!"at-hook:{hookLabel st.rw k}"
-  | some (.ret r) => s!"about-to-return:{r}"
-  | none => "idle"
+  match st.s.phase t with
+  | .inMap _ _ => s!"in-map-at:{(st.s.map.pc t).label}"
+  | .atHook k _ _ => s!"at-hook:{hookLabel st.rw k}"
+  | .ret r => s!"about-to-return:{resStr r}"
+  | .idle => "idle"
 
 def step (st : St) (toks : List Val) (_impl : String) : St × Out :=
   let ok (st : St) (tags : List String) : St × Out := (st, { model := "ok", tags := tags })
@@ -161,14 +113,14 @@ def step (st : St) (toks : List Val) (_impl : String) : St × Out :=
   | [.w "km", .i rw] => ok { rw := rw != 0, started := true } [if rw != 0 then "km.rw" else "km.plain"]
   | _ =>
     if st.dead || !st.started then ok st [] else
-    let go (r : Option St) (why : String) (tags : List String) : St × Out :=
+    let go (r : Option KS) (why : String) (tags : List String) : St × Out :=
       match r with
-      | some st' => ok st' tags
+      | some s' => ok { st with s := s' } tags
       | none => ({ st with dead := true }, { model := s!"rejected:{why}", tags := tags })
     match toks with
     | [.w "inv", .i t, .w kd, .i k] =>
       match kindOf kd with
-      | some kind => go (doInv st t.toNat kind k) s!"inv-while-busy:{at0 st t.toNat}" ["inv." ++ kd]
+      | some kind => go (doInv st t.toNat kind k) s!"inv-while-busy-or-unlock-of-unheld:{at0 st t.toNat}" ["inv." ++ kd]
       | none => (st, { model := "bad-op" })
     | [.w "step", .i t, .w label] => go (doStep st t.toNat label) s!"step-{label}-but-model:{at0 st t.toNat}" ["step:" ++ label]
     | [.w "iter", .i t, .i k] => go (doIter st t.toNat k) s!"iter-key-not-pending:{at0 st t.toNat}" ["iter"]
